@@ -863,7 +863,7 @@ class SobieskiAerodynamics(SobieskiDiscipline):
         c_4 = c_4 or self.constants[4]
         self.__compute_rho_v(mach, altitude)
         rhov2 = self.__compute_rhov2()
-        lift_coeff = ac_mass / (0.5 * rhov2 * wing_area)
+        lift_coeff = self.__lift_coeff = ac_mass / (0.5 * rhov2 * wing_area)
         # Modification of drag_coeff_min for ESF and Cf
         (
             fo1,
